@@ -197,6 +197,18 @@ M = [
     ("C19", "future-resolved-on-any-ack", P + "base/message/circuit.py",
      "            resend_info = self.unacked_reliable.pop((~message.direction, ack), None)",
      "            resend_info = self.unacked_reliable.pop((~message.direction, ack), None) or (\n                self.unacked_reliable.pop((~message.direction, ack + 1), None) if message.name == \"PacketAck\" else None)"),
+    ("C19", "dedupe-window-100", P + "base/message/circuit.py", "deque(maxlen=1_000)", "deque(maxlen=100)"),
+    ("C14", "avatar-orphan-dropped-on-kill-of-unknown-seat", P + "client/object_manager.py",
+     "                if not obj:\n                    # collect_orphans() took it out of the orphanage but it's still waiting\n                    # for this parent to show up, put it back.\n                    region_state._track_orphan(child_id, local_id)\n                continue",
+     "                continue"),
+    ("C02", "zero-expand-limit-silently-truncates", P + "base/message/udpdeserializer.py",
+     "                raise ValueError(\"Unreasonably large zerocoded message\")", "                break"),
+    ("C07", "object-hooks-not-isolated", P + "proxy/addons.py",
+     "            return cls._call_all_addon_hooks(\"handle_object_updated\", session, region, obj, updated_props, msg)",
+     "            for addon in cls._get_all_addon_objects():\n                hook = getattr(addon, \"handle_object_updated\", None)\n                if hook and hook(session, region, obj, updated_props, msg):\n                    return True\n            return None"),
+    ("C07", "object-kill-hooks-stop-at-first-failure", P + "proxy/addons.py",
+     "            return cls._call_all_addon_hooks(\"handle_object_killed\", session, region, obj)",
+     "            try:\n                for addon in cls._get_all_addon_objects():\n                    hook = getattr(addon, \"handle_object_killed\", None)\n                    if hook and hook(session, region, obj):\n                        return True\n            except Exception:\n                LOG.exception(\"object kill hook failed\")\n            return None"),
     # ---- C20 ----
     ("C20", "transfer-done-on-done-packet", P + "base/transfer_manager.py",
      "        if not transfer.done() and len(transfer.chunks) == transfer.expected_chunks:",
@@ -238,17 +250,26 @@ def main():
             diff = subprocess.run(["git", "-C", dst, "diff"], capture_output=True, text=True).stdout
             ok = subprocess.run([sys.executable, "-m", "py_compile", full], capture_output=True).returncode == 0
             caught = False
+            why = ""
             if ok and verify:
                 t = subprocess.run(["/venv/bin/python", "-m", "pytest", "-q", "-x", "-p", "no:cacheprovider", "-n", "8", "--timeout=60",
                                     "--deselect", "tests/proxy/integration/test_http.py::TestMITMProxy::test_mitmproxy_works"],
                                    cwd=dst, capture_output=True, text=True, timeout=600)
                 caught = t.returncode != 0
+                why = ""
+                if caught:
+                    # confirm serially (a loaded machine makes the parallel run flaky) and name the killing test
+                    t = subprocess.run(["/venv/bin/python", "-m", "pytest", "-q", "-x", "-p", "no:cacheprovider", "--timeout=60",
+                                        "--deselect", "tests/proxy/integration/test_http.py::TestMITMProxy::test_mitmproxy_works"],
+                                       cwd=dst, capture_output=True, text=True, timeout=900)
+                    caught = t.returncode != 0
+                    why = next((l for l in t.stdout.splitlines() if l.startswith("FAILED")), "")[:140]
             subprocess.run(["git", "-C", dst, "checkout", "--", "."], check=True)
             if not ok:
                 print(f"SKIP {prop}/{name}: does not compile")
                 continue
             if caught:
-                print(f"SKIP {prop}/{name}: killed by the repo's own tests")
+                print(f"SKIP {prop}/{name}: killed by the repo's own tests ({why})")
                 continue
             d = os.path.join(OUT, prop)
             os.makedirs(d, exist_ok=True)
